@@ -39,4 +39,7 @@ Reasons(e) ==
     \o (IF e.hlen # e.slen THEN <<"message-length">> ELSE <<>>)
     \o (IF ~e.uok THEN <<"unmarshal-failed">> ELSE IF Canon(e.back) # Canon(e.value) THEN <<"round-trip">> ELSE <<>>)
     \o (IF ~e.wok THEN <<"wire-unmarshal-failed">> ELSE IF Canon(e.back2) # Canon(e.value) THEN <<"wire-round-trip">> ELSE <<>>)
+    \* the message owns what Marshal put into it: giving the struct other values afterwards (to reuse it for the
+    \* next request) leaves the message as it was
+    \o (IF ~e.stable THEN <<"message-follows-the-struct">> ELSE <<>>)
 =============================================================================
